@@ -489,6 +489,8 @@ fn parse_token(
     // // go up tree until no parent
     trace!("Searching parent chain for true left starting at {:?}", current_left);
     while let Some(left_index) = current_left {
+        #[cfg(feature = "verif_hooks")]
+        crate::verif::tick();
         trace!("Walking: {:?}", left_index);
         match nodes.get(left_index) {
             None => implementation_error(format!("Index assigned to node has no value in node list. {:?}", left_index))?,
@@ -812,6 +814,8 @@ pub fn parse(lex_tokens: &Vec<LexerToken>) -> Result<ParseResult, CompilerError>
     }
 
     for (i, token) in trimmed.iter().enumerate() {
+        #[cfg(feature = "verif_hooks")]
+        crate::verif::tick();
         trace!(
             "------ Start Token {:?} -------------------------------------------------------------------------",
             token.get_token_type()
@@ -1288,6 +1292,8 @@ pub fn parse(lex_tokens: &Vec<LexerToken>) -> Result<ParseResult, CompilerError>
 
     trace!("Starting with node {:?} with definition {:?}", 0, node.get_definition());
     while !node.parent.is_none() {
+        #[cfg(feature = "verif_hooks")]
+        crate::verif::tick();
         match node.get_parent() {
             None => unreachable!(),
             Some(i) => match nodes.get(i) {
